@@ -156,13 +156,13 @@ pub proof fn lemma_pos_step(src: Seq<u8>, off: int, n: int, line: int, col: int,
 //@ L1|    self.current_line as int == sat16(old(self).current_line + count_nl(it.seq().take(it.index()))),
 //@ L1|    self.current_col as int == col_after(it.seq().take(it.index()), old(self).current_col as int),
 //@ L1|    self.current_offset == old(self).current_offset, self.source == old(self).source, self.filename == old(self).filename,
-//@ @before `match c {`
+//@ @inloop 1
 //@ +proof {
 //@ +    let t = it.seq().take(it.index() + 1);
 //@ +    assert(t.drop_last() == it.seq().take(it.index()));
 //@ +    assert(t.last() == c);
 //@ +}
-//@ @before `self.current_offset += bytes;`
+//@ @afterloop 1
 //@ +proof { assert(skipped@.take(skipped@.len() as int) == skipped@); }
 
 //# ob name=lex_loc verus_fn=Tokenizer::loc fn=compiler::lexer::Tokenizer::loc kind=complete stmt="loc() reports the current line, column and (for sources below 4 GiB) byte offset"
